@@ -92,10 +92,18 @@ def agrees(model, real):
     return ms == rs and mt == rt
 
 
-def run_case(binary, idx):
-    so, se, rc = e2e.run_prog(binary, input="%d\n" % idx, timeout=20)
-    if rc == "timeout":
-        return ("crash:timeout", "-")
+def run_case(binary, idx, timeout=4):
+    """run one layout in a fresh process; on a hang (undefined behaviour can loop) keep what was printed so far"""
+    import subprocess
+    p = subprocess.Popen([binary], stdin=subprocess.PIPE, stdout=subprocess.DEVNULL, stderr=subprocess.PIPE)
+    try:
+        _, se = p.communicate(("%d\n" % idx).encode(), timeout=timeout)
+        rc = p.returncode
+    except subprocess.TimeoutExpired:
+        p.kill()
+        _, se = p.communicate()
+        rc = "timeout"
+    se = se[:200000].decode("utf-8", "replace")
     return canon_real(se, rc)
 
 
@@ -145,16 +153,16 @@ def build_batch(ctx, tag, cases, kinds_bin, want_ref=True):
     return d, facts, bins
 
 
-def probe_cfg(ctx, modeld, kinds_bin):
-    """Which variant of the code is in the working tree?  Runs the stale-frame witness: when llgo's output equals the
-    reference output the rethrow block resets the thread's defer head (fixes/C04-1.diff applied)."""
-    w = [c for c in load_corpus() if c["name"].endswith("stale-frame")]
-    if not w:
-        return 0
-    d, facts, bins = build_batch(ctx, "probe", w, kinds_bin)
-    r0 = run_case(bins["-O0"], 0)
-    ref = run_case(bins["ref"], 0)
-    return 1 if r0 == ref else 0
+def run_all(bins, n, workers=8):
+    """run every layout with every binary, each in a fresh process -> {name: [result per layout]}"""
+    from concurrent.futures import ThreadPoolExecutor
+    jobs = [(name, ci) for name in bins for ci in range(n)]
+    with ThreadPoolExecutor(max_workers=workers) as ex:
+        res = list(ex.map(lambda j: run_case(bins[j[0]], j[1]), jobs))
+    out = {name: [None] * n for name in bins}
+    for (name, ci), r in zip(jobs, res):
+        out[name][ci] = r
+    return out
 
 
 def run(ctx, args):
@@ -164,14 +172,14 @@ def run(ctx, args):
     st = lean_check(ctx, ["LlgoVerif.Props.C04"], ["LlgoVerif/Props/C04.lean"],
                     extra_files=["LlgoVerif/Model/Defer.lean", "LlgoVerif/Spec/DeferSem.lean", "LlgoVerif/Lemmas/Defer.lean"],
                     leanchecker=(ctx.tier == "thorough"))
+    ctx.log("lean: %d/%d theorems check" % (sum(1 for v in st.values() if v == "ok"), len(st)))
     modeld = build_driver(ctx, "modeld_c04")
     e2e.build_llgo(ctx)
     ctx.log("llgo built from", REPO)
     kinds_bin = build_go_harness(ctx, "c04", tags="llvm14,verif")
     ctx.log("kinds harness built")
 
-    tls_fix = probe_cfg(ctx, modeld, kinds_bin)
-    ctx.log("working tree: rethrow block %s" % ("resets the thread defer head (repaired)" if tls_fix else "keeps a stale thread defer head (defect d)"))
+    tls_fix = None   # which variant of the rethrow block the working tree has: probed on the first batch (corpus witness d)
 
     corpus = load_corpus()
     batches = []
@@ -190,6 +198,15 @@ def run(ctx, args):
     spec_bugs, corr_bugs = [], []
     for bi, cases in enumerate(batches):
         d, facts, bins = build_batch(ctx, "b%d" % bi, cases, kinds_bin)
+        t0 = time.time()
+        outs = run_all(bins, len(cases))
+        ctx.log("batch %d: %d layouts x %d binaries run in %.1fs" % (bi, len(cases), len(bins), time.time() - t0))
+        if tls_fix is None:
+            # the stale-frame witness behaves as Go demands  <=>  the rethrow block resets the thread's defer head
+            # (fixes/C04-1.diff applied); the model is run in the matching configuration
+            w = [ci for ci, c in enumerate(cases) if c["name"].endswith("d-stale-frame")]
+            tls_fix = 1 if (w and outs["-O0"][w[0]] == outs["ref"][w[0]]) else 0
+            ctx.log("working tree: rethrow block %s" % ("resets the thread defer head (repaired)" if tls_fix else "keeps a stale thread defer head (defect d)"))
         progs = []
         lines = []
         for ci, case in enumerate(cases):
@@ -204,12 +221,11 @@ def run(ctx, args):
         ans, rc, err = run_lines([modeld], lines)
         if len(ans) != len(lines):
             raise RuntimeError("modeld_c04 died: %d/%d answers\n%s" % (len(ans), len(lines), err[-2000:]))
-        t0 = time.time()
         for ci, case in enumerate(cases):
             prog, lay = progs[ci]
             m0, m2, sp = parse_answer(ans[3 * ci]), parse_answer(ans[3 * ci + 1]), parse_answer(ans[3 * ci + 2])
-            real = {"-O0": run_case(bins["-O0"], ci), "-O2": run_case(bins["-O2"], ci)}
-            ref = run_case(bins["ref"], ci)
+            real = {"-O0": outs["-O0"][ci], "-O2": outs["-O2"][ci]}
+            ref = outs["ref"][ci]
             evaluations += 3
             stats["layouts"] += 1
             nd = 0
@@ -259,7 +275,6 @@ def run(ctx, args):
                            {"case": case["name"], "opt": opt, "layout": json.loads(dg.dumps(case)), "encoded": prog,
                             "llgo": r, "go": ref, "spec": sp, "model": m, "model_reproduces_llgo": model_ok,
                             "how": "render with harness/c04/defergen.py render_program([layout]); llgo build %s; echo 0 | ./prog" % opt})
-        ctx.log("batch %d: %d layouts run in %.1fs" % (bi, len(cases), time.time() - t0))
 
     if spec_bugs:
         ctx.log("SPEC BUG: Lean spec disagrees with the reference toolchain on %d layouts; first: %s" % (len(spec_bugs), json.dumps(spec_bugs[0])[:1500]))
